@@ -15,8 +15,8 @@ INF = H.INF
 
 # name -> number of jobs
 EXH_QUICK = {"indep2": 2, "indep3": 3, "indep4": 4, "split2": 2, "split3": 3, "split4": 4, "chain3": 3, "split2>b": 4, "split2+chain2": 4, "one+chain2": 3, "chain3+b>split2": 6}
-EXH_THOROUGH = {"fanout": 3, "diamond+one": 5, "indep5": 5, "split5": 5, "split3>b": 6, "split2,split2>c": 8, "chain2+chain2": 4, "split4>b": 8, "chain3+b>split3": 7, "split2+plain>c": 5, "chain6": 6, "indep6": 6, "split6": 6}
-SAMPLED = {"indep7": 7, "indep8": 8, "indep10": 10, "split8": 8, "split10": 10, "chain10": 10, "split5>b+split3": 13, "2x chain4 + split2": 10, "indep6": 6, "split6": 6}
+EXH_THOROUGH = {"fanout": 3, "diamond+one": 5, "indep5": 5, "split5": 5, "split3>b": 6, "chain2+chain2": 4, "chain3+b>split3": 7, "split2+plain>c": 5, "chain6": 6}
+SAMPLED = {"one+chain3+b>split3": 8, "split2,split2>c": 8, "split4>b": 8, "indep7": 7, "indep8": 8, "indep10": 10, "split8": 8, "split10": 10, "chain10": 10, "split5>b+split3": 13, "2x chain4 + split2": 10, "indep6": 6, "split6": 6}
 
 
 def ks(n, ctx, full=True):
@@ -27,24 +27,22 @@ def tasks_exhaustive(ctx):
     t = []
     specs = dict(EXH_QUICK)
     if ctx.thorough:
-        specs.update({k: v for k, v in EXH_THOROUGH.items() if k not in ("indep6", "split6")})
+        specs.update(EXH_THOROUGH)
     for sp, n in specs.items():
         for k in ks(n, ctx):
+            # lock files of all handed-out jobs seen at the next observation / never seen before the result
             for vis in ((0,), (INF,)):
                 t.append((H.Opts(sp, loop="real", k=k, vis=vis), 0, 2 if n >= 5 else 0))
-                if ctx.thorough or n <= 4:
+                if n <= 4 or (ctx.thorough and n <= 6):
                     t.append((H.Opts(sp, loop="mirror", k=k, vis=vis), 0, 2 if n >= 5 else 0))
-            if n <= 3 or (ctx.thorough and n <= 5):
+            # per-job choice of visibility
+            if n <= 3 or (ctx.thorough and n <= 4):
                 t.append((H.Opts(sp, loop="real", k=k, vis=(0, INF)), 0, 1))
-                t.append((H.Opts(sp, loop="mirror", k=k, vis=(0, 1, INF) if ctx.thorough and n <= 4 else (0, INF)), 0, 1))
-            if ctx.thorough and n <= 4:
+                t.append((H.Opts(sp, loop="mirror", k=k, vis=(0, INF)), 0, 1))
+            if ctx.thorough and n <= 3:
+                t.append((H.Opts(sp, loop="real", k=k, vis=(0, 1, INF)), 0, 1))
                 t.append((H.Opts(sp, loop="real", k=k, vis=(0, INF), multi=True), 0, 1))
                 t.append((H.Opts(sp, loop="real", k=k, vis=(0, INF), fail=1), 0, 1))
-    if ctx.thorough:
-        for sp in ("indep6", "split6"):
-            for k in ks(6, ctx):
-                for vis in ((0,), (INF,)):
-                    t.append((H.Opts(sp, loop="real", k=k, vis=vis), 0, 2))
     return t
 
 
@@ -58,13 +56,13 @@ def tasks_sync(ctx):
 
 
 def tasks_sampled(ctx):
-    n_s = ctx.pick(6, 60)
+    n_s = ctx.pick(6, 40)
     t = []
     for sp, n in SAMPLED.items():
         if not ctx.thorough and n > 10:
             continue
         for k in ks(n, ctx, full=ctx.thorough):
-            for loop in ("real",) + (("mirror",) if ctx.thorough else ()):
+            for loop in ("real",) + (("mirror",) if ctx.thorough and n <= 8 else ()):
                 t.append((H.Opts(sp, loop=loop, k=k, vis=(0, 1, INF), multi=True), n_s, 0))
     return t
 
@@ -89,12 +87,12 @@ def run(ctx):
         d1 = ctx.domain(
             "asynchronous loop: k x completion orders x lock visibility (exhaustive)",
             bound=(
-                f"workflows {qs} (name: jobs), every k in 1..jobs, every completion order, lock visibility all-seen and none-seen (real loop; mirror loop for "
-                + ("all" if ctx.thorough else "<= 4 jobs")
-                + "), per-job visibility for <= "
-                + ("5" if ctx.thorough else "3")
+                f"workflows {qs} (name: jobs), every k in 1..jobs, every completion order, lock visibility all-seen and none-seen (real loop; mirror loop for <= "
+                + ("6" if ctx.thorough else "4")
+                + " jobs), per-job visibility for <= "
+                + ("4" if ctx.thorough else "3")
                 + " jobs"
-                + ("; thorough adds visibility delay 1 (mirror), several completions per observation and one failing job for <= 4 jobs" if ctx.thorough else "")
+                + ("; thorough adds visibility delay 1, several completions per observation and one failing job for <= 3 jobs" if ctx.thorough else "")
             ),
             rule="one case = one history (workflow, k, loop, script choices); non-trivial = the workflow has more jobs than k (the limit can bind)",
             exhaustive=True,
@@ -107,7 +105,7 @@ def run(ctx):
         )
         d3 = ctx.domain(
             "asynchronous loop: 6-13 jobs (sampled)",
-            bound=f"workflows {SAMPLED if ctx.thorough else {k: v for k, v in SAMPLED.items() if v <= 10}}, k " + ("1..jobs" if ctx.thorough else "in {1,2,3,n/2,n-1,n}") + f", {ctx.pick(6, 60)} random scripts each (visibility delay 0/1/never, several completions per observation), seed {ctx.seed}",
+            bound=f"workflows {SAMPLED if ctx.thorough else {k: v for k, v in SAMPLED.items() if v <= 10}}, k " + ("1..jobs" if ctx.thorough else "in {1,2,3,n/2,n-1,n}") + f", {ctx.pick(6, 40)} random scripts each (visibility delay 0/1/never, several completions per observation), seed {ctx.seed}",
             rule="one case = one random script, distinct by choice list",
             exhaustive=False,
         )
